@@ -1289,7 +1289,8 @@ def replay_one(ctx, pid):
         return
     im = ctx.harness('drive_store.py', {'histories': [ops]})['histories'][0]
     if any(o.get('wfail') for o in ops):
-        hits, _n = write_fault_oracle(ops, im)
+        hits = [x for x in write_fault_oracle(ops, im)[0] + c07_fault_oracle(ops, im)
+                if x['property'] == pid]
         ctx.count(evaluations=len(ops), nontrivial_keys=[('replay', json.dumps(ops)), 'x'])
         for h in hits:
             ctx.violation(h['kind'], h['fields'], '%s: %s' % (pid, h['what']), {'source': 'oracle', 'ops': ops})
@@ -1305,19 +1306,37 @@ def replay_one(ctx, pid):
         print('[%s] replay: the history no longer violates the property' % pid)
 
 
-def write_fault_study(ctx):
-    '''C08, oracle only (no model, no theorem speaks about these histories):
-    a write to one of the five catalogue tables is refused by the file system
-    (OSError) in the middle of an operation, the database process carries on,
-    more names are registered, the database is closed and reopened.  Checked on
-    the implementation's own tables after every operation: each name table is a
-    bijection onto 0..n-1, the id->name index is its inverse (also after the
-    reopen), no id is reassigned, every primary key resolves, and no operation
-    other than the refused one raises.'''
-    n = ctx.n(30, 300)
+def write_fault_histories(ctx, n, tag='wfault'):
+    """histories in which ONE client call has a catalogue-table write refused
+    (op field `wfail: k` = the k-th table write of that call raises OSError,
+    the process carries on).  The first histories are a directed sweep: every
+    k for a fresh two-value update, a fresh registration, a fresh load and a
+    fresh add, each followed by the retry of the same call."""
     hs = []
+
+    def tail(i):
+        return [{'op': 'reopen'}, {'op': 'add', 'tn': 'AFTER%d' % i}, {'op': 'names'}]
+
+    head = {'run': 2, 'tn': 'T', 'task': 't', 'alg': 'alg', 'aver': [1, 0, 0],
+            'sv': 's', 'sver': [1, 0, 0]}
+    pre = dict(head, op='upd', alg='alg2', tn='U', vals=[['v', [1, 0, 0], 0]], crash=None)
+    for k in range(1, 8):        # 5 new rows for the first value, 1 for the second
+        u = dict(head, op='upd', vals=[['v', [1, 0, 0], 1], ['w', [1, 0, 0], 2]], crash=None)
+        hs.append(([pre] if k % 2 else []) + [dict(u, wfail=k), u,
+                  dict(head, op='load', vals=[['v', [1, 0, 0]], ['w', [1, 0, 0]]])] + tail(k))
+    for k in range(1, 5):
+        g = dict(head, op='reg', vn='v', vver=[1, 0, 0])
+        del g['run'], g['tn']
+        hs.append(([pre] if k % 2 else []) + [dict(g, wfail=k), g] + tail(k))
+    for k in range(1, 7):        # a load registers what it asks for
+        ld = dict(head, op='load', vals=[['v', [1, 0, 0]]])
+        hs.append(([pre] if k % 2 else []) + [dict(ld, wfail=k), ld] + tail(k))
+    hs.append([pre, {'op': 'add', 'tn': 'T', 'wfail': 1}, {'op': 'add', 'tn': 'T'}] + tail(0))
+    # a refused write, then a stop between rename and table write, then the retry
+    u = dict(head, op='upd', vals=[['v', [1, 0, 0], 1]], crash=None)
+    hs.append([dict(u, wfail=4), dict(u, crash=6), u, dict(u, run=3)] + tail(1))
     for i in range(n):
-        rng = random.Random('%s:C08:wfault:%d' % (ctx.seed, i))
+        rng = random.Random('%s:C08:%s:%d' % (ctx.seed, tag, i))
         g = Gen(rng, small=True, focus='C08')
         h = []
         for _ in range(rng.randint(2, 5)):
@@ -1330,9 +1349,24 @@ def write_fault_study(ctx):
                  'sv': rng.choice(g.svs), 'sver': [1, 0, 0],
                  'vals': [[rng.choice(g.vals), [1, 0, 0], rng.randint(0, 3)]],
                  'crash': None, 'wfail': rng.randint(1, 4)}
-        if rng.random() < 0.3:
+        x = rng.random()
+        if x < 0.25:
             fresh = {'op': 'add', 'tn': 'NEWT%d' % i, 'wfail': 1}
+        elif x < 0.4:
+            vns = rng.sample(g.vals, 2)
+            fresh = dict(fresh, vals=[[vn, [1, 0, 0], rng.randint(0, 3)] for vn in vns],
+                         wfail=rng.randint(1, 6))
+        elif x < 0.5:
+            fresh = {'op': 'reg', 'task': fresh['task'], 'alg': fresh['alg'], 'aver': [1, 0, 0],
+                     'sv': fresh['sv'], 'sver': [1, 0, 0], 'vn': rng.choice(g.vals),
+                     'vver': [1, 0, 0], 'wfail': rng.randint(1, 4)}
+        elif x < 0.6:
+            fresh = dict(fresh, op='load', vals=[[fresh['vals'][0][0], [1, 0, 0]]],
+                         wfail=rng.randint(1, 5))
+            del fresh['crash']
         h.append(fresh)
+        if rng.random() < 0.5:      # the retry of the refused call
+            h.append({k: v for k, v in fresh.items() if k != 'wfail'})
         for _ in range(rng.randint(2, 6)):
             o = g.op(allow_crash=False)
             if o is not None:
@@ -1345,18 +1379,168 @@ def write_fault_study(ctx):
         h.append({'op': 'add', 'tn': 'AFTER%d' % i})
         h.append({'op': 'names'})
         hs.append([o for o in h if o['op'] not in ('trace', 'reset', 'remove', 'next')])
-    out = ctx.harness('drive_store.py', {'histories': hs})['histories']
-    hits, refused = [], 0
-    for h, r in zip(hs, out):
-        hh, n = write_fault_oracle(h, r)
-        hits += hh
-        refused += n
-    ctx.note('write_fault_histories', {'histories': len(hs), 'writes_refused': refused,
-                                       'note': 'oracle only: a catalogue-table write raises OSError once, '
-                                               'the process carries on; structural invariants of the five '
-                                               'tables checked after every operation and after the reopen'})
-    ctx.count(evaluations=len(hs))
+    return hs
+
+
+def fault_model_eval(ctx, hs):
+    """Model/StoreFault.v on the histories: per history (content table, list of
+    per-call observations (canonical, refused flag, indices, tables))"""
+    out = []
+    per_file = 10
+    for lo in range(0, len(hs), per_file * 14):
+        part = hs[lo:lo + per_file * 14]
+        allnames = Names()
+        exprs, plans = [], []
+        for h in part:
+            codes = Codes()
+            groups = ['(%d, %s)' % (int(hop.get('wfail') or 0), expand(hop, codes, allnames))
+                      for hop in h]
+            exprs.append('run_io_f [%s]' % '; '.join(groups))
+            plans.append(codes)
+        vals = ctx.coq_eval(
+            ['DV.Model.Catalogue', 'DV.Model.Store', 'DV.Model.StoreIO',
+             'DV.Model.StoreFault'], exprs, z_scope=False, chunk=per_file,
+            preamble='Open Scope string_scope.\n' + allnames.preamble())
+        for h, codes, v in zip(part, plans, vals):
+            steps = []
+            for hop, g in zip(h, v):
+                reps, refused, lens, prime, store, stage, dmp = g
+                canon = canon_model(hop, (reps, lens, prime, store, stage))
+                idx = [[s_name(n) for n in ix] for ix in dmp[0]]
+                tabs = [sorted(((s_name(n), i) for n, i in t), key=lambda e: (e[1], e[0]))
+                        for t in dmp[1]]
+                steps.append((canon, bool(refused), idx, tabs))
+            out.append((codes, steps))
+    return out
+
+
+def fault_compare(h, im, codes, steps):
+    """first disagreement between the implementation and Model/StoreFault.v on
+    one history (replies, refused flag, primary table, store, staging area,
+    the five indices and the five tables after every call), or None"""
+    if len(steps) != len(h) or len(im['obs']) != len(h):
+        return {'step': 'length', 'impl': len(im['obs']), 'model': len(steps), 'ops': h}
+    for si, (hop, ob, (mo, refused, idx, tabs)) in enumerate(zip(h, im['obs'], steps)):
+        ci = canon_impl(hop, ob, codes)
+        d = ob.get('dump') or {}
+        cmp = [('reply/prime/store', ci, mo),
+               ('refused', bool(ob.get('write_refused')), refused),
+               ('indices', d.get('indices'), idx),
+               ('tables', [[(n, i) for n, i in t] for t in d.get('tables', [])], tabs)]
+        for what, a, b in cmp:
+            if a != b:
+                return {'step': si, 'what': what, 'op': hop, 'impl': repr(a),
+                        'model': repr(b), 'ops': h[:si + 1]}
+    return None
+
+
+def c07_fault_oracle(h, r):
+    """C07 on the implementation's own observations of a history with refused
+    writes: no primary entry names a missing file, every file is named by its
+    digest, one copy per content, and a completed update reports `new` exactly
+    for content that was not in the store."""
+    hits = []
+    before = None
+    for si, (hop, ob) in enumerate(zip(h, r['obs'])):
+        bad = None
+        rep = ob['reply']
+        if not ob['digest_ok']:
+            bad = ('digest-name', 'a stored file does not hash to its name')
+        codes = [json.dumps(c) for c in ob['store']]
+        if not bad and len(set(codes)) != len(codes):
+            bad = ('two-copies', 'identical content stored twice')
+        for key, c, blob in ob['prime']:
+            if not bad and c == 'DANGLING':
+                bad = ('dangling', 'prime entry %s names the missing file %s' % (key, blob))
+        if not bad and hop['op'] == 'upd' and 'exc' not in rep:
+            had = [json.dumps(c) for c in before['store']] if before else []
+            for (vn, vver, c), (_, f) in zip(hop['vals'], rep['r']):
+                code = json.dumps([c, list(vver)])
+                if f != (code not in had):
+                    bad = ('novelty-flag', 'isnew=%s but content %s present before=%s'
+                           % (f, code, code in had))
+                had.append(code)
+        if bad:
+            hits.append({'property': 'C07', 'kind': bad[0],
+                         'fields': {'cause': 'refused-catalogue-write'},
+                         'what': bad[1], 'ops': h[:si + 1], 'history': h})
+            break
+        before = ob
     return hits
+
+
+_WF = {}
+
+
+def write_fault_study(ctx, pid='C08'):
+    """C08 / C07 over histories with a REFUSED catalogue-table write (OSError,
+    the database process carries on; Model/StoreFault.v, theorems
+    C08_catalogue_inv_faults, C07_no_dangling_faults).  (a) the same histories
+    run in the model and on the real code, compared after every client call:
+    reply, whether a write was refused, primary table, store, staging area, the
+    five indices and the five tables; (b) the structural oracle on the
+    implementation's own tables after every call: each name table is a
+    bijection onto 0..n-1, the id->name index is its inverse (also after the
+    reopen), no id is reassigned, every primary key resolves, no call other
+    than the refused one raises; for C07: no dangling entry, digest names, one
+    copy, novelty flag.  Returns the oracle hits of `pid`; a disagreement
+    without a hit is kept in _WF['mismatch'] after a deeper oracle search."""
+    n = ctx.n(30, 300)
+    hs = write_fault_histories(ctx, n)
+    import threading
+    box = {}
+
+    def run_impl():
+        try:
+            box['impl'] = ctx.harness('drive_store.py', {'histories': hs})['histories']
+        except Exception as e:   # re-raised in the main thread
+            box['err'] = e
+
+    th = threading.Thread(target=run_impl)
+    th.start()
+    try:
+        model = fault_model_eval(ctx, hs)
+    finally:
+        th.join()
+    if 'err' in box:
+        raise box['err']
+    out = box['impl']
+    hits, refused, mismatch, steps, partial = [], 0, None, 0, 0
+    keys = []
+    for h, r, (codes, msteps) in zip(hs, out, model):
+        hh, k = write_fault_oracle(h, r)
+        hits += hh
+        hits += c07_fault_oracle(h, r)
+        refused += k
+        steps += len(h)
+        if mismatch is None:
+            mismatch = fault_compare(h, r, codes, msteps)
+        for hop, ob, before in zip(h, r['obs'], [None] + r['obs']):
+            if ob.get('write_refused'):
+                grew = before is not None and ob['lens'] != before['lens'] or \
+                    before is None and any(ob['lens'])
+                partial += bool(grew)
+                keys.append(('wfault', hop['op'], hop['wfail'], bool(grew)))
+    mine = [x for x in hits if x['property'] == pid]
+    if mismatch and not mine:
+        # the model and the code disagree and the oracle is silent: look for a
+        # failing input among ten times as many histories (oracle only)
+        more = write_fault_histories(ctx, 10 * n, tag='wfault-deep')
+        res = ctx.harness('drive_store.py', {'histories': more})['histories']
+        for h, r in zip(more, res):
+            mine += [x for x in write_fault_oracle(h, r)[0] + c07_fault_oracle(h, r)
+                     if x['property'] == pid]
+    _WF['mismatch'] = mismatch if not mine else None
+    ctx.note('write_fault_histories', {
+        'histories': len(hs), 'client_calls': steps, 'writes_refused': refused,
+        'refused_after_earlier_rows_of_the_call': partial,
+        'model': 'Model/StoreFault.v run_io_f, compared after every call (reply, refused, '
+                 'prime, store, stage, indices, tables)',
+        'note': 'a catalogue-table write raises OSError once, the process carries on; '
+                'structural invariants of the five tables checked after every call and '
+                'after the reopen'})
+    ctx.count(evaluations=steps, nontrivial_keys=sorted(set(keys)))
+    return mine
 
 
 def write_fault_oracle(h, r):
@@ -1422,8 +1606,8 @@ def run_check(ctx, pid, with_units=False):
         ctx.log('escalating the search to thorough depth')
         res2 = study(ctx, pid, True)
         mine = [h for h in res2['hits'] if h['property'] == pid]
-    if pid == 'C08' and not mine:
-        mine += write_fault_study(ctx)
+    if pid in ('C08', 'C07') and not mine:
+        mine += write_fault_study(ctx, pid)
     for h in mine:
         rp = {'source': 'oracle', 'ops': h.get('ops'), 'unit': h.get('unit'),
               'history': h.get('history')}
@@ -1436,6 +1620,14 @@ def run_check(ctx, pid, with_units=False):
             m = res['mismatch']
             ctx.broken('correspondence: model and implementation disagree at '
                        'step %s of a %s history' % (m['step'], m['kind']),
+                       'op=%s\nimpl =%s\nmodel=%s' % (m.get('op'), m['impl'], m['model']),
+                       {'source': 'correspondence', 'ops': m['ops'],
+                        'expected': m['model'], 'observed': m['impl']})
+        if _WF.get('mismatch'):
+            m = _WF['mismatch']
+            ctx.broken('correspondence: Model/StoreFault.v and the implementation disagree '
+                       '(%s) at call %s of a history with a refused catalogue write'
+                       % (m.get('what'), m['step']),
                        'op=%s\nimpl =%s\nmodel=%s' % (m.get('op'), m['impl'], m['model']),
                        {'source': 'correspondence', 'ops': m['ops'],
                         'expected': m['model'], 'observed': m['impl']})
